@@ -150,6 +150,13 @@ def variants(spec):
         ds = fresh()
         ds[name].attrs['extra_attribute'] = 'added'
         yield f'attr-added:{name}', 'differ', ds
+        # array-valued attributes (actual_range, valid_range, per-cell tables): every element and the element type count
+        for label, value in (('range-a', np.array([142.0, 154.0])), ('range-b', np.array([142.0, 154.0000000004])),
+                             ('range-int', np.array([142, 154], dtype='int16')),
+                             ('table-a', np.arange(1500.0)), ('table-b', np.where(np.arange(1500) == 700, -1.0, np.arange(1500.0)))):
+            ds = fresh()
+            ds[name].attrs['described_range'] = value
+            yield f'array-attr-{label}:{name}', 'differ', ds
         # attribute names with a leading underscore (netCDF-Java's _CoordinateAxisType and friends) are attributes too
         for value in ('Lon', 'GeoX'):
             ds = fresh()
